@@ -240,6 +240,20 @@ func implLfsRead(line string) string {
 	}
 	return guard(func() string {
 		fs := desync.NewLocalFS(root, desync.LocalFSOptions{NoTime: a["nt"] == "1", OneFileSystem: a["ofs"] == "1"})
+		// whatever happens, let the walk's goroutine run to its end before the tree is taken away from under it (an
+		// entry whose lstat fails makes the callback dereference a nil FileInfo under --one-file-system: see
+		// cmd/repro_onefs_nilinfo): the rest of the stream is drained
+		defer func() {
+			for i := 0; i < 1000000; i++ {
+				f, err := fs.Next()
+				if err == io.EOF || (err != nil && f == nil && i > 100000) {
+					break
+				}
+				if f != nil {
+					f.Close()
+				}
+			}
+		}()
 		if a["tar"] == "1" { // end to end: the archive Tar writes from this directory
 			var buf bytes.Buffer
 			if err := desync.Tar(context.Background(), &buf, fs); err != nil {
